@@ -13,6 +13,7 @@ import (
 	"path/filepath"
 	"regexp"
 	"sort"
+	"strconv"
 	"strings"
 )
 
@@ -408,6 +409,86 @@ func genFsSites(r *repo) string {
 		}
 		b.WriteString("\n]\n\n")
 	}
+	// raw-path sites with the text of their path argument, and — for the daemon's receive path — the
+	// places where that path (rt.Dest) is assigned, in source order
+	for _, p := range pkgs {
+		fmt.Fprintf(&b, "def rawArgs_%s : List (String × String) := [", p.name)
+		first := true
+		for _, s := range sites {
+			if s.pkg != p.name || s.cls != "rawPath" {
+				continue
+			}
+			if !first {
+				b.WriteString(", ")
+			}
+			first = false
+			fmt.Fprintf(&b, "(%s, %s)", strconv.Quote(s.callee), strconv.Quote(s.arg0))
+		}
+		b.WriteString("]\n")
+	}
+	for _, p := range pkgs {
+		set := map[string]bool{}
+		for _, s := range sites {
+			if s.pkg == p.name && (s.cls == "viaRoot" || s.cls == "viaSource") && s.arg0 != "" {
+				set[s.arg0] = true
+			}
+		}
+		var names []string
+		for n := range set {
+			names = append(names, n)
+		}
+		sort.Strings(names)
+		fmt.Fprintf(&b, "def rootNameArgs_%s : List String := [", p.name)
+		for i, n := range names {
+			if i > 0 {
+				b.WriteString(", ")
+			}
+			b.WriteString(strconv.Quote(n))
+		}
+		b.WriteString("]\n")
+	}
+	// where those names come from: they must be slash-clean (a trailing slash makes the kernel follow a final symlink)
+	cleanFacts := []struct{ file, fn, want, name string }{
+		{"internal/receiver/flist.go", "receiveFileEntry", "f.Name = filepath.Clean(string(b))", "receiverNameCleaned"},
+		{"rsyncd/rsyncd.go", "handleConnReceiver", "subdir := filepath.Clean(strings.TrimPrefix(paths[0], \"/\"))", "daemonSubdirCleaned"},
+		{"internal/sender/flist.go", "walk", "fs.WalkDir(s.source.FS(), filepath.Clean(rootname), s.walkFn)", "senderWalkRootCleaned"},
+	}
+	for _, cf := range cleanFacts {
+		fd := r.funcDecl(cf.file, cf.fn)
+		ok := fd != nil && strings.Contains(strings.Join(strings.Fields(r.src(fd)), " "), strings.Join(strings.Fields(cf.want), " "))
+		fmt.Fprintf(&b, "def %s : Bool := %v\n", cf.name, ok)
+	}
+	var destEv []string
+	if fd := r.funcDecl("rsyncd/rsyncd.go", "handleConnReceiver"); fd != nil {
+		ast.Inspect(fd, func(n ast.Node) bool {
+			switch x := n.(type) {
+			case *ast.KeyValueExpr:
+				if r.src(x.Key) == "Dest" {
+					destEv = append(destEv, "Dest: "+r.src(x.Value))
+				}
+			case *ast.AssignStmt:
+				if len(x.Lhs) == 1 && r.src(x.Lhs[0]) == "rt.Dest" {
+					destEv = append(destEv, "rt.Dest = "+r.src(x.Rhs[0]))
+				}
+			case *ast.CallExpr:
+				f := r.src(x.Fun)
+				if (f == "os.MkdirAll" || f == "os.OpenRoot") && len(x.Args) > 0 {
+					destEv = append(destEv, f+"("+r.src(x.Args[0])+")")
+				}
+			}
+			return true
+		})
+	} else {
+		r.fail("FsSites: handleConnReceiver not found")
+	}
+	b.WriteString("def destEvents_rsyncd : List String := [")
+	for i, e := range destEv {
+		if i > 0 {
+			b.WriteString(", ")
+		}
+		b.WriteString(strconv.Quote(e))
+	}
+	b.WriteString("]\n\n")
 	b.WriteString("end Gen.FsSites\n")
 	return b.String()
 }
